@@ -1,4 +1,6 @@
 import GodiProofs.Container.Close
+import GodiProofs.Container.Order
+import GodiProofs.Container.HypSound
 /-!
 # C11 — Disposal order
 
@@ -38,5 +40,65 @@ theorem track_appends (st : State) (s : Nat) (i : Inst) (h : (st.scope s).dispos
 example : (closeScope {} id 3
     { scope := fun x => if x = 1 then { disposables := some [4, 5, 9] } else {} , nscopes := 2 } 1).1.log =
     [.closed 1 9 true, .closed 1 5 true, .closed 1 4 true] := by decide
+
+/-! ### over Build and all histories: the lists are in creation order (`Container/Order.lean`) -/
+
+/-- CREATION ORDER: in the state a successful Build returns and after every history of resolutions, scope creations
+(failing initializers included) and closes, the disposal list of every scope is strictly increasing in instance id.
+Ids are handed out by the container's counter when a constructor has returned, so the list is the order in which
+the scope's disposable instances were created (arguments first: they exist before the constructor that receives
+them returns). -/
+theorem disposal_lists_in_creation_order (beh : Beh) (descs : List Desc) (order : List Nat) (ops : List Op)
+    (hyp : failedHyps descs = []) (hok : (buildRuntime beh descs order).2 = .ok ()) (s : Nat) :
+    let st := run beh (buildRuntime beh descs order).1 ops
+    (dispOf st s).Pairwise (· < ·) ∧ ∀ i ∈ dispOf st s, i < st.next := by
+  obtain ⟨wf, rw', is, idist, _⟩ := hyps_of_check hyp
+  obtain ⟨_, hsucc, _⟩ := build_ledger beh descs order wf rw' is idist
+  obtain ⟨_, _, hdescs, hinit, _⟩ := hsucc hok
+  have hb : buildRuntime beh descs order = ((buildRuntime beh descs order).1, .ok ()) := by
+    cases h : buildRuntime beh descs order with
+    | mk a b => rw [h] at hok; simp only at hok; subst hok; rfl
+  have h0 := sd_buildRuntime beh descs is order _ hb
+  exact sd_run beh descs is ops _ hdescs (by rw [hdescs]; exact wf) hinit h0 s
+
+/-- REVERSE OF CREATION, for every Close in every history: `Close` of an open scope first logs whatever closing its
+children logs, then one `closed` event per instance of its own disposal list `L`, in the order `L.reverse` — and `L`
+is in creation order. So the scope's own instances are closed in exactly the reverse of the order in which they
+were created: newest first, every instance before the instances that existed when it was constructed. -/
+theorem own_instances_closed_in_reverse_creation_order (beh : Beh) (descs : List Desc) (order : List Nat) (ops : List Op)
+    (hyp : failedHyps descs = []) (hok : (buildRuntime beh descs order).2 = .ok ())
+    (corder : List Nat → List Nat) (s : Nat) :
+    let st := run beh (buildRuntime beh descs order).1 ops
+    (st.scope s).disposed = false →
+    ∃ (before : List Event) (st1 : State) (L : List Inst), L.Pairwise (· < ·) ∧
+      (closeScope beh corder (closeFuel st) st s).1.log = before ++ (L.reverse).map (closedEv beh st1 s) := by
+  intro st hopen
+  obtain ⟨f, hf⟩ : ∃ f, closeFuel st = f + 1 := ⟨closeFuel st - 1, by unfold closeFuel; omega⟩
+  rw [hf]
+  have hlog := closeScope_log beh corder f st s hopen
+  simp only [] at hlog
+  have sd0 : SD st := fun x => disposal_lists_in_creation_order beh descs order ops hyp hok x
+  have sd1 : SD (takeChildren (markDisposed st s) s) := by
+    refine sd_of_fields (st := st) (fun x => ?_) rfl sd0
+    unfold takeChildren markDisposed
+    rw [scope_upd]; split
+    next hx => subst hx; rw [scope_upd]; simp
+    · rw [scope_upd]; split
+      next hx => exact absurd hx ‹_›
+      · rfl
+  have sd2 := ((dispShrink_close beh corder f).2 (takeChildren (markDisposed st s) s)
+    (corder ((st.scope s).children.getD []))).sd sd1
+  exact ⟨_, _, _, (sd2 s).1, hlog⟩
+
+/-- scoped 4 (disposable) consumes scoped 3 (disposable): created 3 then 4, closed 4 then 3 -/
+def exOrder : List Desc :=
+  [{ id := 0, ident := ⟨3, 0, 0⟩, life := .scoped, ctor := 1, kind := .plain, deps := [], disp := true },
+   { id := 1, ident := ⟨4, 0, 0⟩, life := .scoped, ctor := 2, kind := .plain, deps := [{ ty := 3 }], disp := true }]
+example :
+    let st0 := (buildRuntime {} exOrder []).1
+    let st1 := (providerCreateScope {} st0 0).1
+    let st2 := (scopeGet {} st1 1 4 0).1
+    (dispOf st2 1, ((closeScope {} id (closeFuel st2) st2 1).1.log.drop st2.log.length)) =
+      ([1, 2], [.closed 1 2 true, .closed 1 1 true]) := by decide
 
 end Godi.Props.C11
